@@ -28,6 +28,18 @@
                        NewTracer, called by NewEVM for every message.  Until /repo 17e00a9 `access_list` dereferenced
                        msg.To(), nil for a contract creation: the transaction panicked on that node only
                        ([i_tracer_nil_to] = the old behaviour)                                            [n_tracer]
+                     telemetry.enabled (with global labels, prometheus retention, hostname / service labels):
+                       server/start.go startTelemetry -> telemetry.New sets a package-level switch of cosmos-sdk/telemetry
+                       (so it is a property of the whole node process).  x/evm/keeper/msg_server.go EthereumTx emits its
+                       counters in a deferred block registered AFTER the error check on ApplyTransaction; a variant that
+                       registers it before the check and returns early when telemetry is off dereferences the missing
+                       response on telemetry nodes only ([i_telemetry_nil_resp], seeded, never in /repo);
+                       x/feemarket/keeper/abci.go sets a gauge (no result)                                [n_telemetry]
+                     every other app.toml / flag setting cmd/evmd/root.go newApp, server/config and app.NewEvermint read
+                       (pruning, halt-height/time ahead of the chain, min-retain-blocks, inter-block-cache, index-events,
+                       IAVL cache / fast node, state-sync snapshots, json-rpc.*, api.*, grpc.*, trace, trace-store,
+                       inv-check-period, log level / format, --metrics): consumed by BaseApp, the stores, the servers and
+                       the logger, never by a message handler                                             [n_cfg_other]
      goroutines      the only `go` statement outside generated gateway code is in x/evm/keeper/grpc_query.go traceTx
                        (query path, never FinalizeBlock); optimistic execution is not enabled.  GOMAXPROCS is read
                        nowhere                                                                           [n_procs]
@@ -59,16 +71,20 @@ Record nenv := mkNenv {
   n_order : Z -> Z -> Z -> list Z -> list Z;
   n_min_gas : Z;                               (* node's minimum-gas-prices for the EVM denom, x 10^18 *)
   n_tracer : tracer;                           (* node's evm.tracer *)
-  n_procs : Z                                  (* GOMAXPROCS *)
+  n_procs : Z;                                 (* GOMAXPROCS *)
+  n_telemetry : bool;                          (* telemetry.enabled of the node's app.toml (process-wide switch) *)
+  n_cfg_other : Z                              (* stands for every other node-local setting (app.toml, config.toml, flags) *)
 }.
 
 (* which of the repaired defects an implementation has; /repo HEAD is [impl_head] *)
 Record impl := mkImpl {
   i_guard_wall_clock : bool;     (* before 295ed89 *)
   i_commit_map_order : bool;     (* before 133c300 *)
-  i_tracer_nil_to : bool         (* before 17e00a9 *)
+  i_tracer_nil_to : bool;        (* before 17e00a9 *)
+  i_telemetry_nil_resp : bool    (* never in /repo: seeded variant of msg_server.go EthereumTx (deferred telemetry block
+                                    registered before the error check, skipped when telemetry is off) *)
 }.
-Definition impl_head : impl := mkImpl false false false.
+Definition impl_head : impl := mkImpl false false false false.
 
 (* ------------------------------------------------------------------ StateDB life of one transaction *)
 
@@ -208,7 +224,8 @@ Record txd := mkTxd {
   t_create : bool;                       (* msg.To() == nil *)
   t_dyn : bool; t_price : Z; t_tip : Z; t_cap : Z;
   t_gas : Z;
-  t_tag : Z;                             (* stands for recipient, value, calldata: input of the interpreter *)
+  t_tag : Z;                             (* stands for recipient, calldata: input of the interpreter *)
+  t_value : Z;                           (* msg.Value() *)
   t_stake : option Z                     (* Some amount: a direct call of the staking precompile's transfer(self, amount) *)
 }.
 
@@ -220,6 +237,7 @@ Record txresult := mkRes { r_code : Z; r_gas_wanted : Z; r_gas_used : Z; r_event
 
 Definition CODE_INSUFFICIENT_FEE : Z := 13.
 Definition CODE_PANIC : Z := 111222.
+Definition CODE_APPLY_ERROR : Z := 1.     (* an unregistered error wrapped by errorsmod: codespace "undefined", code 1 *)
 
 (* x/evm/types/tracer.go NewTracer, called by NewEVM before the interpreter runs *)
 Definition new_tracer (im : impl) (tr : tracer) (t : txd) : res unit :=
@@ -266,6 +284,22 @@ Section Exec.
            mkRes 0 (t_gas t) (t_gas t) [EvDelegate (t_from t) (v_op v) amount])
       end.
 
+  (* x/evm/keeper/state_transition_core.go TransitionDb, after preCheck and the intrinsic gas and before the interpreter:
+     `msg.Value().Sign() > 0 && !CanTransfer(state, from, value)` -> ErrInsufficientFundsForTransfer: a consensus error,
+     ApplyMessageWithConfig and ApplyTransaction return it with a nil response.  (The ante handler took the fee already;
+     the balance here is what is left.) *)
+  Definition core_refuses (s : cstate) (t : txd) : bool :=
+    (0 <? t_value t) && (amt (w_bal (c_w s) (t_from t)) evm_denom <? t_value t).
+
+  (* x/evm/keeper/msg_server.go EthereumTx when ApplyTransaction returned an error: `return nil, Wrap(err, ...)` —
+     the transaction fails with the wrapped error.  The deferred telemetry block (counters with labels; it reads
+     response.GasUsed) is registered after that return.  [i_telemetry_nil_resp]: registered before it and starting with
+     `if !telemetry.IsTelemetryEnabled() { return }`: on a telemetry node the nil response is dereferenced, BaseApp
+     recovers the panic (code 111222) *)
+  Definition apply_error_result (e : nenv) (t : txd) (g_fail : Z) : txresult :=
+    if i_telemetry_nil_resp im && n_telemetry e then mkRes CODE_PANIC (t_gas t) g_fail []
+    else mkRes CODE_APPLY_ERROR (t_gas t) g_fail [].
+
   (* one Ethereum transaction in deliver mode, position [i] in the block *)
   Definition exec_tx (e : nenv) (h : header) (i : Z) (s : cstate) (t : txd) : cstate * txresult :=
     let floor := BaseFee.min_allowed BaseFee.Deliver (c_base s) (c_gmin s) (n_min_gas e) in
@@ -279,6 +313,8 @@ Section Exec.
           | Some amount => stake_transfer s t amount
           | None =>
               let '(ops, g_ok, g_fail, _) := interp h (c_w s) t in
+              if core_refuses s t then (s, apply_error_result e t g_fail)
+              else
               match nrun_tx im e i (h_time h) (c_blocked s) (c_w s) ops with
               | TxFailed => (s, mkRes CODE_PANIC (t_gas t) g_fail [])
               | TxOk w' burns => (set_w s w', mkRes 0 (t_gas t) g_ok (map (fun b => EvBurn (fst b) (snd b)) burns))
